@@ -204,6 +204,7 @@ pub fn run_with_monitor(l: &mut Local, prop: &'static str, lines: &[(Vec<u8>, bo
         }
         f.clear();
         judge_step(&exp, line, *decode, &out, &d0, &d1, &mut f);
+        explore::confirm_traces(&mut f, || explore::states_differ(&lines[..i], &lines[..=i], &explore::probe_set(&m)));
         let mut stop = false;
         for (props, sig, why) in f.drain(..) {
             stop = true;
